@@ -88,3 +88,17 @@ Theorem C06_counters_commute : forall (l l' : list (nat * soutcome)),
   Permutation l l' -> tally_of l = tally_of l'.
 Proof. exact counters_commute. Qed.
 Print Assumptions C06_counters_commute.
+
+(* non-vacuity: every theorem of this file that has hypotheses has a concrete, non-trivial instance meeting ALL of them
+   (lemmas <Theorem>_witness / <Theorem>_applied in Proofs/WitnessesP.v); a representative one is restated here *)
+From Snaps Require Import Proofs.WitnessesP.
+Example C06_witnesses :
+  exists c : cfg,
+    content ex_file = render w06_es0 /\
+    Forall wf_entry w06_es0 /\
+    no_collisions (map cl_tid (concat ex_prog)) w06_es0 /\
+    NoDup (map cl_tid (concat ex_prog)) /\
+    Forall (ok_call (map cl_tid (concat ex_prog))) (concat ex_prog) /\
+    run_sched Repaired (init_cfg ex_file ex_prog) ex_sched_ok = Some c /\
+    finished c = true.
+Proof. exact C06_serialisable_witness. Qed.
